@@ -301,30 +301,58 @@ def as_statement(b):
     return Built(build(f, {f.slots[0]: b}), None, 'expr<' + b.desc + '>')
 
 
-def chains(depth, kind):
+CORE_FORMS = frozenset([
+    'lit-regex', 'lit-string', 'lit-number', 'group', 'arr-1-e1-1', 'obj-1',
+    'obj-get', 'obj-set', 'fexpr-named', 'dot', 'bracket', 'new-1', 'new',
+    'call-1', 'post-inc', 'unary-', 'unarytypeof', 'unary++', 'bin+', 'bin/',
+    'binin', 'bin<', 'cond', 'assign=', 'comma',
+    'block-1', 'var-init', 'empty', 'if', 'if-else', 'do', 'while',
+    'for-ecn', 'for-vi00', 'forin-var', 'return-e', 'return', 'break',
+    'switch-case-default', 'label', 'throw', 'try-all', 'fdecl', 'with',
+    'continue-l', 'debugger'])
+
+
+def chains(depth, kind, inner=None, _root=True):
     """
     All single-path chains of `depth` constructors whose root has `kind`
     ('E' or 'S').  Yields Built.  depth 1 = a form with fillers.
+    `inner`: optional set of form names allowed below the root (a stated
+    sub-space for the expensive oracles).
     """
     forms = EXPR_FORMS if kind == 'E' else STMT_FORMS
     for f in forms:
+        if not _root and inner is not None and f.name not in inner:
+            continue
         if depth == 1:
             yield Built(build(f, {}), f.level, f.name)
             continue
         for si in f.slots:
             slot = f.template[si]
-            for child in chains(depth - 1, slot.kind):
+            for child in chains(depth - 1, slot.kind, inner, False):
                 yield Built(build(f, {si: child}), f.level,
                             '%s[%d<-%s]' % (f.name, si, child.desc))
             if slot.kind == 'S':
                 # an expression form in a statement slot (as an expression
                 # statement) also counts as one constructor
-                for child in chains(depth - 1, 'E'):
+                for child in chains(depth - 1, 'E', inner, False):
                     if child.desc.startswith('lit-ident') and depth == 2:
                         continue
                     st = as_statement(child)
                     yield Built(build(f, {si: st}), f.level,
                                 '%s[%d<-%s]' % (f.name, si, st.desc))
+
+
+def chain_programs(depth, inner=None):
+    """de-duplicated lexeme tuples of all chains of exactly `depth`"""
+    seen = set()
+    out = []
+    for kind in ('S', 'E'):
+        for b in chains(depth, kind, inner):
+            lex = b.lex if kind == 'S' else as_statement(b).lex
+            if lex not in seen:
+                seen.add(lex)
+                out.append(lex)
+    return out
 
 
 _cache = {}
